@@ -68,6 +68,31 @@ CHECKS["C08"] = dict(
     technique="TLA+ lattice model + TLC, model-generated case replay, scripted-validity replay of sampler state machines, TLC trace validation",
     design="3/C06-C08")
 
+CHECKS["C02"] = dict(
+    level="model_checking",
+    text="Propagate.tla transcribes both propagateWhileValid overloads statement by statement over an integer integrator with "
+         "explicit buffers; TLC checks CountCorrect, ResultIsLastValid, AgreeA_B, NoAllocLeak, ZeroCopies for all steps in -8..8 "
+         "(-9..9) x all validity patterns x alloc/capacity and every case is replayed on the real control::SpaceInformation "
+         "(3 embeddings, allocation-counting space); 3,840 (56k) runs of the 8 control planners on 3 systems (point, car with "
+         "asymmetric control bounds, double integrator) x maps x durations x step sizes x budgets x seeds produce SolveReports "
+         "whose facts come from an oracle independent of the library (own step function, own validity, own bounds and goal "
+         "distance); each is validated by TLC against ControlPathContract.tla (one clause per sentence of the property).",
+    note="Propagation exhaustive for the integer integrator only; planner runs sampled on 2-D 4x4 maps; the oracle trusts that "
+         "one step moves the system by less than half a cell.",
+    technique="TLA+ statement-level spec + TLC exhaustive; exact case replay; TLC trace validation of solve reports",
+    design="3/C02")
+CHECKS["C10"] = dict(
+    level="model_checking",
+    text="NearestNeighbors.tla is the contract state machine over bags of [point, uid] with an integer metric (line, duplicates, "
+         "far-apart clusters, 3x3 L1 lattice); TLC checks 14 consistency invariants and exports each state graph with the full "
+         "table of admissible answers; the harness walks EVERY history of length <= 6 (7-8 thorough; 9.3 M / 140 M paths) through "
+         "the graph on both GNAT variants, Linear and SqrtApprox under 7 tree parameterisations, issuing the complete query "
+         "battery after every step (684 M / 10.6 G compared answers), plus long random walks under ASan; recorded histories of "
+         "1000 operations are validated by TLC, which recomputes brute force itself.",
+    note="Integer metrics; bags of <= 8-12 elements in the exhaustive walks (default leaf size reached only in recorded "
+         "histories); internal transitions (split/rebuild causes) counted by a harness-side probe subclass, never used for verdicts.",
+    technique="TLA+ contract spec + TLC; graph-guided exhaustive history walks (M3'); TLC trace validation",
+    design="3/C10")
 CHECKS["C01"] = dict(
     level="exploration",
     text="TLC enumerates every planning configuration of the 3x3 cell world up to symmetry (5478: obstacle layout x start x "
